@@ -145,7 +145,12 @@ func (m *Module) Configure(w *engine.World, r *engine.Rand) any {
 		c.PParam = 0.04 * r.Float()
 	}
 	c.PMulti = 0.2 * r.Float()
-	c.Donations = r.Bool(0.4)
+	// Transfers straight into the farm module account are off: a production application
+	// blocks module addresses as recipients, and an unexpected balance there breaks the
+	// module's own registered invariant, which the application asserts at genesis import
+	// (DESIGN.md section 14, "application wiring").
+	_ = r.Bool(0.4)
+	c.Donations = false
 	for i := 0; i < c.NFarmers; i++ {
 		c.HarvestBias = append(c.HarvestBias, []int{0, 0, 1, 2, 6}[r.Intn(5)])
 	}
